@@ -155,7 +155,8 @@ impl From<&Instruction> for LocalVariable {
 
 impl From<&AnonymousFunction> for LocalVariable {
     fn from(value: &AnonymousFunction) -> Self {
-        Self::Function(value.params.clone(), value.return_type())
+        // the type the function returns (return_type() is the type of the function itself)
+        Self::Function(value.params.clone(), value.return_type.clone())
     }
 }
 
